@@ -104,7 +104,11 @@ class LiquidError(Exception):
                 break
 
         if target_line_index == -1:
-            raise ValueError("index is out of bounds for the given string")
+            # An index at (or past) the end of the text refers to its last line.
+            if not lines:
+                return 1, 0, "", "", ""
+            target_line_index = len(lines) - 1
+            index = min(index, cumulative_length)
 
         # Line number (1-based)
         line_number = target_line_index + 1
